@@ -302,6 +302,12 @@ fn grammar_of_src(src: &str) -> (String, String, Option<OpTable>, Option<String>
             let mut rng = Rng::new(seed ^ 0x1A18 ^ (k as u64).wrapping_mul(0x9E37));
             ("cfg".into(), serde_json::to_string(&lalr_split_grammar(&mut rng, &format!("c03lalr{k}"))).unwrap(), None, None)
         }
+        "lalrglr" => {
+            let seed: u64 = f[1].parse().unwrap();
+            let k: usize = f[2].parse().unwrap();
+            let mut rng = Rng::new(seed ^ 0x61A5 ^ (k as u64).wrapping_mul(0x9E37));
+            ("glr".into(), serde_json::to_string(&lalr_glr_grammar(&mut rng, &format!("c03lglr{k}"))).unwrap(), None, None)
+        }
         "json" => ("cfg".into(), String::from_utf8(unhex(f[1])).unwrap(), None, None),
         _ => panic!("bad src {src}"),
     }
@@ -429,14 +435,28 @@ fn main() {
     // operator tables in which two rules share one operator text (reduce/reduce resolved by precedence,
     // every reading of the token takes part in the shift/reduce decision); last, so that the
     // families above see the same random stream as before
-    for k in 0..(if thorough { 48 } else { 24 }) {
+    // …and tables in which several binary operators are alternatives of ONE rule, some of them on one
+    // level with opposite associativity (k ≥ 24)
+    for k in 0..(if thorough { 96 } else { 48 }) {
         let mut grng = Rng::new(seed ^ 0x7719 ^ (k as u64).wrapping_mul(0x9E37));
         let mut t = random_optable(&mut grng);
-        add_twin(&mut t, k, &mut grng);
+        if k < 24 || k % 3 == 0 {
+            add_twin(&mut t, k, &mut grng);
+        }
+        if k >= 24 {
+            group_rules(&mut t, k % 2 == 0, &mut grng);
+        }
         let name = format!("c03tw{k}");
         let g = op_grammar(&name, &t);
         let json = serde_json::to_string(&g).unwrap();
         explore_token_grammar(&mut em, &mut cu, &mut rng, &name, "op", &format!("op:{name}:{}", t.encode()), &json, Some(&t), budget.min(15000), nrandom, &mut stats);
+    }
+    // LR(1)-but-not-LALR(1) splits behind a declared conflict (GLR entry on the path to the split states)
+    for k in 0..(if thorough { 40 } else { 8 }) {
+        let mut grng = Rng::new(seed ^ 0x61A5 ^ (k as u64).wrapping_mul(0x9E37));
+        let name = format!("c03lglr{k}");
+        let json = serde_json::to_string(&lalr_glr_grammar(&mut grng, &name)).unwrap();
+        explore_token_grammar(&mut em, &mut cu, &mut rng, &name, "glr", &format!("lalrglr:{seed}:{k}"), &json, None, budget.min(15000), nrandom, &mut stats);
     }
     let (cases, accepted) = (em.cases, em.accepted);
     drop(em);
